@@ -1,12 +1,12 @@
 package main
 
 import (
-	"sync"
 	"fmt"
 	"go/token"
 	"go/types"
 	"sort"
 	"strings"
+	"sync"
 
 	"golang.org/x/tools/go/ssa"
 )
